@@ -3856,6 +3856,8 @@ EXT = {
     "numpy.promote_types": lambda ev, a, k, fr, n: h_result_type(ev, a, k, fr, n),
     "numpy.empty": lambda ev, a, k, fr, n: h_zeros(ev, a, k, fr, n),
     "functools.reduce": lambda ev, a, k, fr, n: h_reduce(ev, a, k, fr, n),
+    "builtins.set": lambda ev, a, k, fr, n: SetV(ev.iterate(a[0], fr, n) if a else []),
+    "builtins.frozenset": lambda ev, a, k, fr, n: SetV(ev.iterate(a[0], fr, n) if a else []),
     "numpy.finfo": lambda ev, a, k, fr, n: h_finfo(ev, a, k, fr, n),
     "numpy.squeeze": lambda ev, a, k, fr, n: h_squeeze(ev, a, k, fr, n), "numpy.ndenumerate": lambda ev, a, k, fr, n: h_ndenumerate(ev, a, k, fr, n),
     "numpy.cumsum": lambda ev, a, k, fr, n: h_cumsum(ev, a, k, fr, n), "numpy.ndindex": lambda ev, a, k, fr, n: h_ndindex(ev, a, k, fr, n),
